@@ -45,74 +45,80 @@ def gen_case(rng):
     return dict(tgt=t, dev=d, edits=e)
 
 
+def evaluate(ctx, n, with_second=True):
+    """-> (failing, breaks, coverage dict); failing entries carry a key ('refused-..', 'not-converged', ...)"""
+    failing, breaks, cov = [], [], {}
+    cases = corpus() + [gen_case(ctx.rng) for _ in range(n)]
+    jobs = [dict(model='NSX', device=N.conf_json(c['dev']), netspoc=N.conf_json(c['tgt'])) for c in cases]
+    res = drcrun.run_many(ctx, jobs)
+    items, meta = [], []
+    for i, (c, job, r) in enumerate(zip(cases, jobs, res)):
+        rep = dict(property='C04', command='drc -q device code/router', device=job['device'], netspoc=job['netspoc'], edits=c['edits'],
+                   stdout=r['out'], stderr=r['err'][-500:], rc=r['rc'])
+        if r['panic'] or r['rc'] not in (0, 1):
+            failing.append(dict(what='drc crashes', replay=rep, finding=None, key='crash'))
+            continue
+        if r['rc'] != 0:
+            breaks.append(dict(correspondence='generated NSX pair rejected by drc', case=rep))
+            continue
+        reqs, bad = N.parse_requests(r['out'])
+        if bad:
+            breaks.append(dict(correspondence='request not understood by the NSX model', case=dict(rep, requests=bad[:3])))
+            continue
+        items.append('{| nc_dev := %s; nc_tgt := %s; nc_reqs := %s |}' % (N.c_mgr(c['dev']), N.c_mgr(c['tgt']), C.clist(reqs)))
+        meta.append((i, rep, bool(reqs)))
+    verdicts = []
+    for k in range(0, len(items), 200):
+        text = ('From Coq Require Import List String.\nFrom NA Require Import Robust.GoStr Panos.Device Nsx.Device.\nImport ListNotations.\nOpen Scope string_scope.\n'
+                'Definition V := Eval vm_compute in map (fun c => (njudge c, nalready c)) %s.\nPrint V.\n' % C.clist(items[k:k + 200]))
+        verdicts += parse_coq_term(ctx.coq_eval('c04_%d' % k, text))
+    if len(verdicts) != len(items):
+        raise RuntimeError('verdict count %d != %d' % (len(verdicts), len(items)))
+    second, second_meta, nontrivial = [], [], 0
+    for (i, rep, has), v in zip(meta, verdicts):
+        (pos, why, conv, left_s, left_g, rendered, already) = v
+        conv, already = (conv == 'true'), (already == 'true')
+        c = cases[i]
+        nontrivial += has
+        if pos:
+            failing.append(dict(what='request %d is refused by the manager: %s' % (pos, WHY.get(why, why)),
+                                replay=dict(rep, refused_request=pos, reason=WHY.get(why, why)), finding=None, key='refused-%d' % why))
+            continue
+        if not conv:
+            failing.append(dict(what='after the requests the policies are not equivalent to the target', replay=dict(rep, final_state=rendered),
+                                finding=None, key='not-converged'))
+            continue
+        if left_s or left_g:
+            failing.append(dict(what='left-over Netspoc objects: services %s, groups %s' % (left_s, left_g), replay=dict(rep, final_state=rendered),
+                                finding=None, key='leftover'))
+            continue
+        if not has and not already:
+            failing.append(dict(what='no change reported although the manager is not equivalent to the target', replay=rep, finding=None, key='silent-difference'))
+            continue
+        fin = N.conf_from_render(rendered)
+        second.append(dict(model='NSX', device=N.conf_json(fin), netspoc=job_netspoc(c)))
+        second_meta.append((i, rep))
+    res2 = drcrun.run_many(ctx, second)
+    for (i, rep), job, r in zip(second_meta, second, res2):
+        reqs2, _ = N.parse_requests(r['out'])
+        if r['rc'] != 0 or reqs2:
+            failing.append(dict(what='the second compare on the resulting state reports changes again',
+                                replay=dict(rep, second_device=job['device'], second_stdout=r['out'], second_stderr=r['err'][-300:]), finding=None, key='not-idempotent'))
+    ed = collections.Counter(e for c in cases for e in c['edits'])
+    cov = dict(evaluations=len(cases) + len(second), distinct_nontrivial=len(set(items)), scripts_with_requests=nontrivial,
+               rule='generated NSX pairs: 1-2 gateway policies with 0-5 rules (shared sequence numbers, IN/OUT, ALLOW/DROP, logged, tag), 0-3 groups, '
+                    'services; manager = target after 0-4 edits (rule deleted / inserted / renamed, group renamed / grown / shrunk / split / shared / '
+                    'duplicated, group <-> single address, service definition changed in place, spare groups and services, id clashes of rules and groups, '
+                    'policy added / removed, external groups); distinct by (manager, target, requests)',
+               edit_distribution=dict(ed), traces_validated_against_impl=len(items), second_compares=len(second), samples=[meta[0][1]] if meta else [])
+    return failing, breaks, cov
+
+
 def main(ctx):
     st = ctx.proof_status()
     failing, breaks, cov = [], [], {}
     if ctx.build_impl():
-        n = 150 if ctx.tier == 'quick' else 3000
-        cases = corpus() + [gen_case(ctx.rng) for _ in range(n)]
-        jobs = [dict(model='NSX', device=N.conf_json(c['dev']), netspoc=N.conf_json(c['tgt'])) for c in cases]
-        res = drcrun.run_many(ctx, jobs)
-        items, meta = [], []
-        for i, (c, job, r) in enumerate(zip(cases, jobs, res)):
-            rep = dict(property='C04', command='drc -q device code/router', device=job['device'], netspoc=job['netspoc'], edits=c['edits'],
-                       stdout=r['out'], stderr=r['err'][-500:], rc=r['rc'])
-            if r['panic'] or r['rc'] not in (0, 1):
-                failing.append(dict(what='drc crashes', replay=rep, finding=None, key='crash'))
-                continue
-            if r['rc'] != 0:
-                breaks.append(dict(correspondence='generated NSX pair rejected by drc', case=rep))
-                continue
-            reqs, bad = N.parse_requests(r['out'])
-            if bad:
-                breaks.append(dict(correspondence='request not understood by the NSX model', case=dict(rep, requests=bad[:3])))
-                continue
-            items.append('{| nc_dev := %s; nc_tgt := %s; nc_reqs := %s |}' % (N.c_mgr(c['dev']), N.c_mgr(c['tgt']), C.clist(reqs)))
-            meta.append((i, rep, bool(reqs)))
-        verdicts = []
-        for k in range(0, len(items), 200):
-            text = ('From Coq Require Import List String.\nFrom NA Require Import Robust.GoStr Panos.Device Nsx.Device.\nImport ListNotations.\nOpen Scope string_scope.\n'
-                    'Definition V := Eval vm_compute in map (fun c => (njudge c, nalready c)) %s.\nPrint V.\n' % C.clist(items[k:k + 200]))
-            verdicts += parse_coq_term(ctx.coq_eval('c04_%d' % k, text))
-        if len(verdicts) != len(items):
-            raise RuntimeError('verdict count %d != %d' % (len(verdicts), len(items)))
-        second, second_meta, nontrivial = [], [], 0
-        for (i, rep, has), v in zip(meta, verdicts):
-            (pos, why, conv, left_s, left_g, rendered, already) = v
-            conv, already = (conv == 'true'), (already == 'true')
-            c = cases[i]
-            nontrivial += has
-            if pos:
-                failing.append(dict(what='request %d is refused by the manager: %s' % (pos, WHY.get(why, why)),
-                                    replay=dict(rep, refused_request=pos, reason=WHY.get(why, why)), finding=None, key='refused-%d' % why))
-                continue
-            if not conv:
-                failing.append(dict(what='after the requests the policies are not equivalent to the target', replay=dict(rep, final_state=rendered),
-                                    finding=None, key='not-converged'))
-                continue
-            if left_s or left_g:
-                failing.append(dict(what='left-over Netspoc objects: services %s, groups %s' % (left_s, left_g), replay=dict(rep, final_state=rendered),
-                                    finding=None, key='leftover'))
-                continue
-            if not has and not already:
-                failing.append(dict(what='no change reported although the manager is not equivalent to the target', replay=rep, finding=None, key='silent-difference'))
-                continue
-            fin = N.conf_from_render(rendered)
-            second.append(dict(model='NSX', device=N.conf_json(fin), netspoc=job_netspoc(c)))
-            second_meta.append((i, rep))
-        res2 = drcrun.run_many(ctx, second)
-        for (i, rep), job, r in zip(second_meta, second, res2):
-            reqs2, _ = N.parse_requests(r['out'])
-            if r['rc'] != 0 or reqs2:
-                failing.append(dict(what='the second compare on the resulting state reports changes again',
-                                    replay=dict(rep, second_device=job['device'], second_stdout=r['out'], second_stderr=r['err'][-300:]), finding=None, key='not-idempotent'))
-        ed = collections.Counter(e for c in cases for e in c['edits'])
-        cov = dict(evaluations=len(cases) + len(second), distinct_nontrivial=len(set(items)), scripts_with_requests=nontrivial,
-                   rule='generated NSX pairs: 1-2 gateway policies with 0-5 rules (shared sequence numbers, IN/OUT, ALLOW/DROP, logged, tag), 0-3 groups, '
-                        'services; manager = target after 0-4 edits (rule deleted / inserted / renamed, group renamed / grown / shrunk / split / shared / '
-                        'duplicated, group <-> single address, service definition changed in place, spare groups and services, id clashes of rules and groups, '
-                        'policy added / removed, external groups); distinct by (manager, target, requests)',
-                   edit_distribution=dict(ed), traces_validated_against_impl=len(items), second_compares=len(second), samples=[meta[0][1]] if meta else [])
+        failing, breaks, cov = evaluate(ctx, 150 if ctx.tier == 'quick' else 3000)
     cov = C.proof_coverage(ctx, cov)
     return C.finish(ctx, failing, breaks, cov,
                     ['REST semantics assumed by Nsx/Device.v: PUT creates or replaces, PATCH and DELETE need the id, POST ?action=add merges, ?action=remove '
